@@ -221,10 +221,17 @@ def parse_races(logs):
             frames.append(f)
         inmod = [f for f in frames if f]
         if not inmod:
+            # both accesses outside the library: a race of the harness itself. It is no verdict on
+            # the library, but it must not go unnoticed (it makes the monitor unreliable)
+            if "verifharness/" in blk:
+                HARNESS_RACES.append(blk[:1500])
             continue
         key = "race:" + "|".join(sorted(set(inmod)))
         seen.setdefault(key, blk[:3000])
     return len(reports), seen
+
+
+HARNESS_RACES = []
 
 
 def main():
@@ -333,6 +340,9 @@ def run_check(prop, tier, seed, repo, tmp, replay, scale, t0):
             observations[label]["race_reports_in_module_distinct"] = len(seen)
             for k, blk in seen.items():
                 violations.append((k, "data race reported by the Go race detector with a frame inside the module", {"report": blk}, step))
+            if HARNESS_RACES:
+                inconclusive.append(f"{label}: {len(HARNESS_RACES)} race report(s) inside the harness itself (no library frame): " + HARNESS_RACES[0][:600].replace("\n", " | "))
+                del HARNESS_RACES[:]
         parts.append({"step": label, "status": "ok", "wall_s": r["wall_s"], "evaluations": res.get("evaluations")})
 
     # verdict
